@@ -383,6 +383,179 @@ pub fn check_cli(c: &CliCase, probe: &Probe) -> Verdict {
     Verdict::Pass
 }
 
+/// Other ways of asking git for a diff: option sets that change the output's shape, and the combined / mail /
+/// log forms. (index into DIFF_OPTS)
+pub const DIFF_OPTS: &[&[&str]] = &[
+    &["--no-prefix"],
+    &["--src-prefix=x/", "--dst-prefix=y/"],
+    &["-R"],
+    &["--binary"],
+    &["--word-diff"],
+    &["--word-diff=porcelain"],
+    &["--stat", "-p"],
+    &["--color=always"],
+    &["--full-index"],
+    &["-B"],
+    &["-C", "--find-copies-harder"],
+    &["-W"],
+    &["-w"],
+    &["--inter-hunk-context=5"],
+    &["--raw", "-p"],
+    &["--name-only"],
+    &["--numstat"],
+    &["--summary", "-p"],
+    &["--line-prefix=| "],
+    &["-z", "--raw"],
+    &["--output-indicator-new=>", "--output-indicator-old=<"],
+    &["--color-words"],
+    &["--compact-summary", "-p"],
+    &["--ignore-blank-lines"],
+    &["--text"],
+    &["-U0"],
+    &["-U1"],
+    &["--minimal"],
+    &["--patience"],
+    &["--histogram"],
+    &["--ws-error-highlight=all", "--color=always"],
+    &["--no-renames"],
+    &["--dirstat", "-p"],
+    &["--output-indicator-context=."],
+];
+
+#[derive(Clone, Debug, Serialize, Deserialize)]
+pub struct DiffForm {
+    pub mutant: Mutant,
+    pub second: Vec<MutOp>,
+    /// indices into DIFF_OPTS (1..3 option sets combined)
+    pub opts: Vec<u8>,
+    /// 0 work tree vs index, 1 `git diff` in the middle of a conflicting merge (combined diff with conflict markers),
+    /// 2 `git show` of the merge commit (`diff --cc`), 3 `git log -p -2`, 4 `git format-patch --stdout -1`,
+    /// 5 `git stash show -p`, 6 `git diff` of a file that also turned executable and was renamed
+    pub scenario: u8,
+}
+
+/// "Any diff git can produce": whatever git prints for a pair (or triple) of states under unusual options is piped
+/// to `blockwatch` and `blockwatch list`; any verdict or readable error will do, a crash or a hang will not.
+pub fn check_diff_forms(c: &DiffForm, probe: &Probe) -> Verdict {
+    let sd = seeds();
+    let seed = &sd[pick_idx(c.mutant.seed, sd.len())];
+    let old = apply(&seed.text, &c.mutant.ops);
+    let new = apply(&old, &c.second);
+    let sfx = SUFFIXES[seed.suffix].0;
+    let f = langs::file_name("m", sfx);
+    let sb = Sandbox::new();
+    sb.init_repo();
+    let mut opts: Vec<&str> = vec![];
+    for o in &c.opts {
+        opts.extend_from_slice(DIFF_OPTS[*o as usize % DIFF_OPTS.len()]);
+    }
+    let with = |head: &[&str]| -> Vec<String> { head.iter().chain(opts.iter()).map(|s| s.to_string()).collect() };
+    let git_out = |args: Vec<String>| -> String {
+        let a: Vec<&str> = args.iter().map(String::as_str).collect();
+        sb.git(&a).stdout
+    };
+    let scenario = c.scenario % 7;
+    let d = match scenario {
+        1 | 2 => {
+            sb.write(&f, seed.text.as_bytes());
+            sb.commit_all("base");
+            sb.git_ok(&["checkout", "-q", "-b", "side"]);
+            sb.write(&f, old.as_bytes());
+            sb.commit_all("side");
+            sb.git_ok(&["checkout", "-q", "main"]);
+            sb.write(&f, new.as_bytes());
+            sb.commit_all("main");
+            let m = sb.git(&["merge", "--no-edit", "-q", "side"]);
+            if scenario == 1 {
+                probe.class(if m.code == Some(0) { "diff-form:merge-without-conflict" } else { "diff-form:conflict-in-progress(combined diff)" });
+                git_out(with(&["diff", "--no-ext-diff"]))
+            } else {
+                if m.code != Some(0) {
+                    sb.write(&f, format!("{new}\nresolved\n").as_bytes());
+                    sb.commit_all("merge");
+                }
+                probe.class("diff-form:show-merge-commit(--cc)");
+                git_out(with(&["show", "--no-ext-diff", "--cc"]))
+            }
+        }
+        3 | 4 => {
+            sb.write(&f, seed.text.as_bytes());
+            sb.commit_all("base");
+            sb.write(&f, old.as_bytes());
+            sb.commit_all("old -- with a subject\n\n--- a/x\n+++ b/x\n@@ -1 +1 @@ body text that looks like a diff\n");
+            sb.write(&f, new.as_bytes());
+            sb.commit_all("new");
+            if scenario == 3 {
+                probe.class("diff-form:log-p");
+                git_out(with(&["log", "-p", "-2", "--no-ext-diff"]))
+            } else {
+                probe.class("diff-form:format-patch");
+                git_out(with(&["format-patch", "--stdout", "-2"]))
+            }
+        }
+        5 => {
+            sb.write(&f, old.as_bytes());
+            sb.commit_all("old");
+            sb.write(&f, new.as_bytes());
+            sb.git(&["stash", "-q"]);
+            probe.class("diff-form:stash-show");
+            let d = git_out(with(&["stash", "show", "-p"]));
+            sb.git(&["stash", "pop", "-q"]);
+            d
+        }
+        6 => {
+            sb.write(&f, old.as_bytes());
+            sb.commit_all("old");
+            let g = format!("moved/{f}");
+            sb.git(&["mv", "-k", &f, "moved_tmp"]);
+            let _ = std::fs::create_dir_all(sb.root.join("moved"));
+            let _ = std::fs::rename(sb.root.join("moved_tmp"), sb.root.join(&g));
+            sb.write(&g, new.as_bytes());
+            {
+                use std::os::unix::fs::PermissionsExt;
+                let _ = std::fs::set_permissions(sb.root.join(&g), std::fs::Permissions::from_mode(0o755));
+            }
+            sb.git_ok(&["add", "-A"]);
+            probe.class("diff-form:rename+mode+edit");
+            git_out(with(&["diff", "--no-ext-diff", "--cached", "-M30%"]))
+        }
+        _ => {
+            sb.write(&f, old.as_bytes());
+            sb.commit_all("old");
+            sb.write(&f, new.as_bytes());
+            probe.class("diff-form:work-tree");
+            git_out(with(&["diff", "--no-ext-diff"]))
+        }
+    };
+    if d.is_empty() {
+        probe.class("diff-form:empty-output");
+    } else {
+        probe.nontrivial();
+    }
+    let show = |what: &str, mode: &str, o: &Out| format!("C04 [{sfx}]: {what} in {mode} mode; git scenario {scenario}, options {opts:?}\n--- input from git ({} bytes) ---\n{}\n--- observed ---\n{}", d.len(), crate::cli::trunc(&d, 3000), o.brief());
+    for (mode, mut r) in [("diff", BwRun::diff(&[], d.as_bytes())), ("diff-list", BwRun::diff(&["list"], d.as_bytes()))] {
+        r.timeout_s = Some(30);
+        probe.child();
+        probe.evals(1);
+        let o = sb.bw(&r);
+        if o.timed_out {
+            if (0..2).all(|_| sb.bw(&r).timed_out) {
+                if grammar_terminates(sfx, &new) == Some(false) && crate::known::listed("K6") {
+                    return Verdict::Known("K6");
+                }
+                return Verdict::Fail(show("does not terminate (3/3 runs exceeded 30 s)", mode, &o));
+            }
+            return Verdict::Unspecified("one slow run that did not reproduce (inconclusive)");
+        }
+        if let Some(why) = bad_exit(&o) {
+            return Verdict::Fail(show(&why, mode, &o));
+        }
+        probe.class(if o.code == Some(0) { "diff-form:exit0" } else { "diff-form:exit1" });
+    }
+    probe.sample(|| json!({"file": f, "scenario": scenario, "options": opts, "diff_head": crate::cli::trunc(&d, 300)}));
+    Verdict::Pass
+}
+
 fn ops_strategy(max: usize) -> BoxedStrategy<Vec<MutOp>> {
     let op = prop_oneof![
         (any::<u16>(), any::<u16>()).prop_map(|(a, l)| MutOp::Delete(a, l)),
@@ -787,10 +960,10 @@ pub fn check_many_paths(c: &ManyPaths, probe: &Probe) -> Verdict {
 pub fn run(run: &mut Run) {
     run.sentinel("K6", "raw", check_raw);
     run.enumerate("raw", Vec::<RawInput>::new(), None, check_raw);
-    run.rule = "four enumerated and four random parts. many-paths: 3 000 tiny files each passed as its own path argument (an unquoted shell glob), and 6 000 reached through one glob (a directory walk over more entries than any plausible internal queue holds), validate and list, 30 s limit for a job of about a second. odd-numbers: every pair (and a sample of triples) of 18 unusual numerals (nan, inf, exponents, signs, -0, overflow, underscores, hex, Arabic-Indic digit, 2^53+1, blank) as the keys of a numeric keep-sorted block, with and without a pattern: any verdict, but no panic. line-edits: a block of 1..4 short lines over 21 characters (ASCII and multi-byte characters in groups sharing their UTF-8 lead bytes) changed by 1..4 character substitutions / insertions / deletions, in two thirds of the cases together with 1..2 such edits of the start-tag line (so that changed ranges begin or end anywhere around the tag), real `git diff -U0..3` piped to `blockwatch` and `blockwatch list` (non-trivial = the first differing character of a changed line is multi-byte on both sides). deep: 16 repetitive shapes (nested parentheses / brackets / braces / elements, block-quote prefixes, comment openers, comment lines, nested <block> tags, member and operator chains, quotes, nested lists, backticks, unfinished tags) repeated 300 and 1 000 (thorough 3 000) times under every suffix, and expression nesting 40 000 (thorough 200 000) deep under 18 suffixes, on the CLI in scan and list mode. unicode-sweep: the golden file of every (suffix, comment form) with one unusual character (NBSP, ideographic space, U+2028, NEL, é, emoji, combining mark, BOM, VT, CR, NUL) inserted at every byte position, or substituted for each blank, parsed + validated in-process. soup: 1..40 tokens drawn from 155 fragments (comment delimiters of every language, tag fragments, half-written tags, quotes, brackets, newlines/CR/CRLF, NBSP, zero-width, emoji, combining marks, BOM, here-doc/PHP/Markdown/XML openers, small valid statements), glued or space-separated, run in-process (parse + sync validators) under all 39 suffixes. mutants: delete/duplicate/insert-token/truncate/move-span mutations of valid files (golden file of every suffix x comment form, and the repository's own sources, tests, README, capped at 8 KiB) under their own suffix in-process. cli: a mutant committed and a further mutation in the work tree, real `git diff -U0..3` piped to `blockwatch` and `blockwatch list`, plus scan and list, under the file's suffix and a second random suffix. Every in-process panic is re-run on the CLI before it is reported. Evaluations count (input, suffix, mode) runs. Non-trivial input = unbalanced comment delimiters, a half-written tag, a Markdown definition opener or a degenerate `<!-->`.".into();
+    run.rule = "four enumerated and five random parts. diff-forms: a mutant and a further mutation of it (and, for merges, the unmutated file as common ancestor) turned into whatever git prints in one of seven situations (work tree diff; `git diff` in the middle of a conflicting merge - a combined diff holding conflict markers; `git show --cc` of a merge commit; `git log -p -2`; `git format-patch --stdout -2` with a commit message that looks like a diff; `git stash show -p`; a renamed file that also turned executable) under 0..2 of 34 option sets that change the output's shape (--no-prefix, other prefixes, -R, --binary, --word-diff[=porcelain], --color-words, --color=always, --stat/--raw/--summary/--dirstat in front of the patch, --name-only, --numstat, -z --raw, --line-prefix, other output indicators, -W, -w, -B, -C, --text, ...), piped to `blockwatch` and `blockwatch list`: any verdict or readable error, no crash, no hang. many-paths: 3 000 tiny files each passed as its own path argument (an unquoted shell glob), and 6 000 reached through one glob (a directory walk over more entries than any plausible internal queue holds), validate and list, 30 s limit for a job of about a second. odd-numbers: every pair (and a sample of triples) of 18 unusual numerals (nan, inf, exponents, signs, -0, overflow, underscores, hex, Arabic-Indic digit, 2^53+1, blank) as the keys of a numeric keep-sorted block, with and without a pattern: any verdict, but no panic. line-edits: a block of 1..4 short lines over 21 characters (ASCII and multi-byte characters in groups sharing their UTF-8 lead bytes) changed by 1..4 character substitutions / insertions / deletions, in two thirds of the cases together with 1..2 such edits of the start-tag line (so that changed ranges begin or end anywhere around the tag), real `git diff -U0..3` piped to `blockwatch` and `blockwatch list` (non-trivial = the first differing character of a changed line is multi-byte on both sides). deep: 16 repetitive shapes (nested parentheses / brackets / braces / elements, block-quote prefixes, comment openers, comment lines, nested <block> tags, member and operator chains, quotes, nested lists, backticks, unfinished tags) repeated 300 and 1 000 (thorough 3 000) times under every suffix, and expression nesting 40 000 (thorough 200 000) deep under 18 suffixes, on the CLI in scan and list mode. unicode-sweep: the golden file of every (suffix, comment form) with one unusual character (NBSP, ideographic space, U+2028, NEL, é, emoji, combining mark, BOM, VT, CR, NUL) inserted at every byte position, or substituted for each blank, parsed + validated in-process. soup: 1..40 tokens drawn from 155 fragments (comment delimiters of every language, tag fragments, half-written tags, quotes, brackets, newlines/CR/CRLF, NBSP, zero-width, emoji, combining marks, BOM, here-doc/PHP/Markdown/XML openers, small valid statements), glued or space-separated, run in-process (parse + sync validators) under all 39 suffixes. mutants: delete/duplicate/insert-token/truncate/move-span mutations of valid files (golden file of every suffix x comment form, and the repository's own sources, tests, README, capped at 8 KiB) under their own suffix in-process. cli: a mutant committed and a further mutation in the work tree, real `git diff -U0..3` piped to `blockwatch` and `blockwatch list`, plus scan and list, under the file's suffix and a second random suffix. Every in-process panic is re-run on the CLI before it is reported. Evaluations count (input, suffix, mode) runs. Non-trivial input = unbalanced comment delimiters, a half-written tag, a Markdown definition opener or a degenerate `<!-->`.".into();
     run.assumptions = vec![
         "inputs are at most 16 KiB (edited lines are short: the character diff of one replaced line is quadratic, slowness on very long lines is not flagged)".into(),
-        "only git-made diffs are piped in".into(),
+        "only git-made output is piped in (the diff-forms part includes forms that are not plain two-way patches: for those only termination without a crash is judged)".into(),
     ];
     let soup = || (proptest::collection::vec(any::<u16>(), 1..40), any::<bool>()).prop_map(|(tokens, spaced)| Soup { tokens, spaced }).boxed();
     let mutant = || (any::<u16>(), ops_strategy(6)).prop_map(|(seed, ops)| Mutant { seed, ops }).boxed();
@@ -804,6 +977,8 @@ pub fn run(run: &mut Run) {
     run.enumerate("many-paths", vec![ManyPaths { n: 3000, list: false, glob: false }, ManyPaths { n: 3000, list: true, glob: false }, ManyPaths { n: 6000, list: false, glob: true }, ManyPaths { n: 6000, list: true, glob: true }], Some("3 000 tiny files, each also passed as its own path argument, and 6 000 reached through one glob; validate and list"), check_many_paths);
     run.enumerate("odd-numbers", odd_key_items(), Some("every pair (and a sample of triples) of 18 unusual numerals as the keys of a numeric keep-sorted block"), check_odd_keys);
     run.random("cli", run.tier.pick(400, 10000), cli, check_cli);
+    let forms = || (any::<u16>(), ops_strategy(4), ops_strategy(4), proptest::collection::vec(0u8..(DIFF_OPTS.len() as u8), 0..3), 0u8..7).prop_map(|(seed, ops, second, opts, scenario)| DiffForm { mutant: Mutant { seed, ops }, second, opts, scenario }).boxed();
+    run.random("diff-forms", run.tier.pick(500, 12000), forms, check_diff_forms);
     let edits = || {
         (proptest::collection::vec(proptest::collection::vec(any::<u8>(), 0..12), 1..5), proptest::collection::vec((any::<u8>(), any::<u8>(), 0u8..3, any::<u8>()), 1..5), 0u8..4, prop_oneof![1 => Just(vec![]), 2 => proptest::collection::vec((any::<u8>(), 0u8..3, any::<u8>()), 1..3)])
             .prop_map(|(old, edits, unified, tag_edits)| LineEdits { old, edits, unified, tag_edits })
